@@ -95,12 +95,16 @@ func resVariant(res core.Dict, err error, rd *reader.Reader) string {
 }
 
 func runCase(c *hx.Ctx, k kase, tag string) {
-	rend := writers.RenderPDF(k.Doc, k.Layout)
+	tr := &writers.Trace{}
+	lay := k.Layout
+	lay.Trace = tr // the writer records the abstract file; the bytes do not depend on it
+	rend := writers.RenderPDF(k.Doc, lay)
 	path := filepath.Join(c.OutDir, "c01-"+tag+".pdf")
 	os.WriteFile(path, rend.Data, 0o644)
 	defer os.Remove(path)
 	var leafOut []string
 	var pageTexts []string
+	var samePos []string
 	var count int
 	var openErr, countErr error
 	pageErrs := map[int]string{}
@@ -127,9 +131,16 @@ func runCase(c *hx.Ctx, k kase, tag string) {
 				pageErrs[i] = err.Error()
 			}
 			var sb strings.Builder
+			pos := map[[2]int]bool{}
 			for _, f := range frags {
 				sb.WriteString(f.Text)
 				sb.WriteString("\n")
+				// the key deduplicateFragments rounds positions to
+				p := [2]int{int(f.X + 0.5), int(f.Y + 0.5)}
+				if pos[p] {
+					samePos = append(samePos, fmt.Sprintf("page %d (%d,%d)", i+1, p[0], p[1]))
+				}
+				pos[p] = true
 			}
 			pageTexts = append(pageTexts, sb.String())
 		}
@@ -141,6 +152,12 @@ func runCase(c *hx.Ctx, k kase, tag string) {
 		return
 	}
 	c.Op("c01.ptree "+writers.TreeSexpr(rend.Tree), fmt.Sprintf("n=%d %s", count, strings.Join(leafOut, ";")))
+	readOp(c, k, tr, path)
+	// every line is shown at a position of its own, so the position-keyed fragment
+	// de-duplication (which the reader model does not have) cannot have removed anything
+	c.Check("C01/distinct-positions", len(samePos) == 0, k, func() string {
+		return "two fragments of one page at the same rounded position: " + strings.Join(samePos, "; ")
+	})
 	c.Check("C01/page-count", countErr == nil && count == len(k.Doc.Pages), k, func() string {
 		return fmt.Sprintf("PageCount=%d (%v), document has %d page leaves", count, countErr, len(k.Doc.Pages))
 	})
@@ -212,6 +229,7 @@ func Run(c *hx.Ctx) {
 			c.Count(fmt.Sprintf("filters=%d", lay.Filters))
 			c.Count(fmt.Sprintf("revisions=%d", lay.Revisions))
 			c.Count(fmt.Sprintf("lengthmode=%d", lay.LengthMode))
+			countLayout(c, lay)
 		}
 	}
 }
